@@ -448,7 +448,7 @@ pub fn gen_case(campaign: &str, r: &mut Rng) -> Case {
                 };
                 x += dx;
                 y = match style {
-                    0 => y + r.range(-3, 3) as f64,                   // integer data, plateaux and extrema
+                    0 => if r.chance(1, 5) { 0.0 } else { y + r.range(-3, 3) as f64 }, // integer data, plateaux (also at 0) and extrema
                     1 => y + r.range(0, 4) as f64 * 0.5,              // monotone with plateaux
                     2 => y + (r.unit() - 0.5),                        // oscillating
                     3 => 2.0 * x + 1.0 + if i % 3 == 0 { 1e-9 * r.unit() } else { 0.0 }, // nearly collinear
@@ -456,7 +456,11 @@ pub fn gen_case(campaign: &str, r: &mut Rng) -> Case {
                     6 | 7 => if i % 4 == 3 { y - r.unit() } else { y + r.unit() }, // mostly rising, scaled below
                     _ => y + r.unit(),
                 };
-                ks.push((x, y * yscale));
+                let mut yy = y * yscale;
+                if yy == 0.0 && r.chance(1, 2) {
+                    yy = -0.0; // plateaux at zero with mixed signed zeros in the DATA
+                }
+                ks.push((x, yy));
             }
             let mut c = Case::new("spline", "p3").set("knots", Val::Knots(ks)).cls(&format!("style={style}:n={}", n.min(5)));
             c.nontrivial = n >= 4;
